@@ -564,7 +564,7 @@ func init() {
 			return old
 		})
 		ext("sync/atomic.CompareAndSwap"+k.suffix, func(fr *frame, a []value) value {
-			fr.i.yield("atomic")
+			fr.i.yield("atomic-cas")
 			old := fr.i.load(t, a[0])
 			if boolFork(fr, fr.i.eqv(t, old, a[1])) {
 				fr.i.store(t, a[0], a[2])
